@@ -51,7 +51,9 @@ def seeds_for(pid):
             continue
         if m.get("neutralised"):
             continue
-        caught_by = m.get("caught_by") or [m.get("property")]
+        # `caught_by` recorded (selftest/update_meta.py): the checks that report this seed; an empty list = no check does
+        # (kept as documentation of a limit, not re-run); not recorded yet: the check of the seed's own property
+        caught_by = m["caught_by"] if isinstance(m.get("caught_by"), list) else [m.get("property")]
         if pid in caught_by:
             patch = os.path.join(base, d, "patch_on_fixed_tree.diff")
             if not os.path.exists(patch):
